@@ -33,7 +33,7 @@
 EXTENDS Naturals, Sequences, FiniteSets, TLC
 
 CONSTANTS
-    Part,       \* "priv" | "pub" | "scanpriv" | "scanpub" | "chain" | "layout" | "keylist"
+    Part,       \* "priv" | "pub" | "scanpriv" | "scanpub" | "chain" | "layout" | "keylist" | "encoding"
     Variant,    \* "code" = faithful model; others are seeded-wrong (sensitivity)
     Bcrypt,     \* bcrypt with KDF support is installed (detected at run time)
     MaxBlocks,  \* scanner: maximal number of text blocks in a file
@@ -412,6 +412,90 @@ Independence ==
     Part = "keylist" => \A n \in DOMAIN st.out : st.out[n].pend \in {0, st.out[n].e}
 
 -----------------------------------------------------------------------------
+(* Part "encoding": the encoding CHOICES a foreign writer may legally make  *)
+(* for an encrypted / OpenSSH private key, as a decision table.  Class of a *)
+(* case: "legal" (RFC 8018 / RFC 7292 / RFC 1421 / PROTOCOL.key: must       *)
+(* import to the same key), "illegal" (must be refused), "tolerated" (not   *)
+(* legal by the letter, but the reference readers accept it: refusing or    *)
+(* importing the same key are both fine).  The PBKDF2 parameter block is    *)
+(*   SEQUENCE { salt, iterationCount, keyLength OPTIONAL, prf DEFAULT sha1 }*)
+(* and the decoder must read the two optional fields independently.         *)
+
+EncCiphers == {"aes128-cbc", "aes192-cbc", "aes256-cbc", "des-ede3-cbc"}
+Pbes2Base ==
+    {k \in [scheme : {"pbes2"}, cipher : EncCiphers, keylen : {"absent", "right", "wrong"},
+            prf : {"absent", "sha1", "sha256", "sha512"}, null : BOOLEAN,
+            salt : {1, 8, 16, 32}, iter : {"1", "2048"}, ber : {"der"}] :
+        k.prf = "absent" => k.null}
+Pbes2Large ==
+    {k \in [scheme : {"pbes2"}, cipher : EncCiphers, keylen : {"absent", "right"},
+            prf : {"absent", "sha1", "sha256", "sha512"}, null : {TRUE},
+            salt : {8}, iter : {"large"}, ber : {"der"}] : TRUE}
+Pbes2Ber ==
+    [scheme : {"pbes2"}, cipher : {"aes128-cbc", "des-ede3-cbc"}, keylen : {"absent", "right"},
+     prf : {"absent", "sha256"}, null : {TRUE}, salt : {8}, iter : {"1"},
+     ber : {"longform", "indefinite"}]
+Pbes1Cases ==
+    [scheme : {"pbes1"}, alg : {"md5-des", "sha1-des", "p12-3des", "p12-2des", "p12-rc4-128",
+                                "p12-rc4-40"},
+     salt : {1, 8, 16}, iter : {"1", "2048", "large"}]
+DekCases ==
+    [scheme : {"dek"}, cipher : {"AES-128-CBC", "AES-192-CBC", "AES-256-CBC", "DES-EDE3-CBC",
+                                 "DES-CBC", "BOGUS-CBC"},
+     hexcase : {"upper", "lower"}, ivlen : {"ok", "short", "long"},
+     namecase : {"upper", "lower"}]
+OsshKeyCases ==
+    [scheme : {"openssh"}, kt : {"ed25519", "ec256"}, check : {"equal", "differ"},
+     pad : {"seq", "zeros", "long", "misaligned"}, comment : {"empty", "utf8", "long"},
+     nkeys : {1, 2}]
+EncCases == Pbes2Base \cup Pbes2Large \cup Pbes2Ber \cup Pbes1Cases \cup DekCases
+              \cup OsshKeyCases
+
+EncClass(k) ==
+    CASE k.scheme = "pbes2" ->
+            IF k.ber = "indefinite" \/ k.keylen = "wrong" THEN "illegal"
+            ELSE IF k.ber = "longform" \/ ~k.null THEN "tolerated"
+            ELSE "legal"
+      [] k.scheme = "pbes1" ->
+            \* PBKDF1 takes an 8-octet salt (RFC 8018 A.1); PKCS#12 any
+            IF k.alg \in {"md5-des", "sha1-des"} /\ k.salt # 8 THEN "tolerated" ELSE "legal"
+      [] k.scheme = "dek" ->
+            IF k.cipher = "BOGUS-CBC" \/ k.ivlen = "short" THEN "illegal"
+            ELSE IF k.ivlen = "long" \/ k.namecase = "lower" THEN "tolerated"
+            ELSE "legal"          \* hex digits of either case
+      [] k.scheme = "openssh" ->
+            IF k.check = "differ" \/ k.nkeys # 1 \/ k.pad = "zeros" THEN "illegal"
+            ELSE IF k.pad \in {"long", "misaligned"} THEN "tolerated"
+            ELSE "legal"
+
+\* PBKDF2: the hash the key was derived with / the hash the decoder uses
+TrueHash(k) == IF k.prf = "absent" THEN "sha1" ELSE k.prf
+DecoderHash(k) ==
+    IF k.prf = "absent" THEN "sha1"
+    ELSE IF Variant = "PrfIgnoredWithKeyLength" /\ k.keylen # "absent" THEN "sha1"
+    ELSE k.prf
+
+\* what the decoder does: "ok" (same key) or "KeyImportError"
+EncOutcome(k) ==
+    CASE k.scheme = "pbes2" ->
+            IF k.ber = "indefinite" \/ ~k.null THEN "KeyImportError"
+            ELSE IF DecoderHash(k) # TrueHash(k) THEN "KeyImportError"
+            ELSE "ok"             \* a contradicting keyLength / long-form length is read as written
+      [] k.scheme = "pbes1" -> "ok"
+      [] k.scheme = "dek" ->
+            IF k.cipher = "BOGUS-CBC" \/ k.namecase = "lower" \/ k.ivlen # "ok"
+            THEN "KeyImportError" ELSE "ok"
+      [] k.scheme = "openssh" ->
+            IF k.check = "differ" \/ k.nkeys # 1 \/ k.pad = "zeros" THEN "KeyImportError" ELSE "ok"
+
+\* every legal encoding imports; nothing illegal by structure is imported
+EncSound ==
+    Part = "encoding" =>
+        /\ (EncClass(c) = "legal" => EncOutcome(c) = "ok")
+        /\ ((c.scheme = "openssh" /\ EncClass(c) = "illegal") => EncOutcome(c) = "KeyImportError")
+        /\ ((c.scheme = "pbes2" /\ c.ber = "indefinite") => EncOutcome(c) = "KeyImportError")
+
+-----------------------------------------------------------------------------
 Cases == CASE Part = "priv"     -> PrivCases
            [] Part = "pub"      -> PubCases
            [] Part = "scanpriv" -> ScanPrivCases
@@ -419,6 +503,7 @@ Cases == CASE Part = "priv"     -> PrivCases
            [] Part = "chain"    -> ChainCases
            [] Part = "layout"   -> LayoutCases
            [] Part = "keylist"  -> KLCases
+           [] Part = "encoding" -> EncCases
 
 Init ==
     /\ c \in Cases
@@ -428,6 +513,7 @@ Init ==
               [] Part = "chain" -> ChainInitSt
               [] Part = "layout" -> LayoutInitSt
               [] Part = "keylist" -> KLInitSt
+              [] Part = "encoding" -> [class |-> "pending", outcome |-> "pending"]
               [] OTHER -> [export |-> "pending", import |-> "pending"]
 
 TableStep ==
@@ -449,6 +535,10 @@ ChainStepAct ==
     \/ \E t \in ChainNextSts(c, st) : st' = t /\ pc' = "run" /\ res' = res
     \/ /\ ChainNextSts(c, st) = {} /\ pc' = "done" /\ res' = "ok" /\ st' = st
 
+EncStepAct ==
+    /\ st' = [class |-> EncClass(c), outcome |-> EncOutcome(c)]
+    /\ pc' = "done" /\ res' = EncOutcome(c)
+
 KLStepAct ==
     IF KLDone(c, st)
     THEN /\ pc' = "done" /\ res' = (IF st.err = 0 THEN "ok" ELSE "KeyImportError") /\ st' = st
@@ -466,6 +556,7 @@ Next ==
          [] Part = "chain" -> ChainStepAct
          [] Part = "layout" -> LayoutStepAct
          [] Part = "keylist" -> KLStepAct
+         [] Part = "encoding" -> EncStepAct
 
 Spec == Init /\ [][Next]_vars
 
@@ -524,5 +615,6 @@ EmitRows ==
                           [] Part \in {"scanpriv", "scanpub"} -> <<c, st.err, st.keys>>
                           [] Part = "chain" -> <<c, st.hist, st.priv>>
                           [] Part = "layout" -> <<c, res, st.comment>>
-                          [] Part = "keylist" -> <<c, st.err, st.out>>))
+                          [] Part = "keylist" -> <<c, st.err, st.out>>
+                          [] Part = "encoding" -> <<c, st.class, st.outcome>>))
 =============================================================================
